@@ -63,6 +63,9 @@ func (n *Normalizer) Normalize(fn *Function) {
 	if changed {
 		rebuild(fn)
 	}
+	if forwardLocalLoads(fn) {
+		rebuild(fn)
+	}
 	// threading needs a valid dominator tree; each round is followed by a rebuild
 	for i := 0; i < 6; i++ {
 		if !threadPhis(fn, n.NonNil) {
@@ -402,8 +405,16 @@ func threadPhis(fn *Function, nonNil func(Value) bool) bool {
 				continue
 			}
 			chainOK := true
+			var mStores []*Store
 			for _, ins := range M.Instrs[nphi : len(M.Instrs)-1] {
 				switch x := ins.(type) {
+				case *Store:
+					// a spill of the merged value into a variable (a named result that a deferred closure
+					// reads): re-executed on every threaded edge with that edge's operand
+					if _, isAlloc := x.Addr.(*Alloc); !isAlloc {
+						chainOK = false
+					}
+					mStores = append(mStores, x)
 				case *UnOp:
 					if x.Op.String() != "!" {
 						chainOK = false
@@ -498,7 +509,11 @@ func threadPhis(fn *Function, nonNil func(Value) bool) bool {
 				// values of the condition chain must not be needed anywhere else
 				chainUsed := false
 				for _, ins := range M.Instrs[nphi : len(M.Instrs)-1] {
-					if usedElsewhere(fn, ins.(Value), nil) && usedOutside(fn, ins.(Value), M) {
+					cv, isVal := ins.(Value)
+					if !isVal {
+						continue
+					}
+					if usedElsewhere(fn, cv, nil) && usedOutside(fn, cv, M) {
 						chainUsed = true
 					}
 				}
@@ -509,9 +524,18 @@ func threadPhis(fn *Function, nonNil func(Value) bool) bool {
 				var Es []*BasicBlock
 				for _, T := range targets {
 					E := &BasicBlock{Comment: "thread." + M.Comment, parent: fn}
+					for _, ms := range mStores {
+						v := ms.Val
+						if mp, isPhi := v.(*Phi); isPhi && mp.Block() == M {
+							v = mp.Edges[k]
+						}
+						ns := &Store{Addr: ms.Addr, Val: v, pos: ms.pos}
+						ns.setBlock(E)
+						E.Instrs = append(E.Instrs, ns)
+					}
 					jj := new(Jump)
 					jj.setBlock(E)
-					E.Instrs = []Instruction{jj}
+					E.Instrs = append(E.Instrs, jj)
 					E.Preds = []*BasicBlock{P}
 					E.Succs = []*BasicBlock{T}
 					mi := T.predIndex(M)
@@ -1146,6 +1170,71 @@ func splitReturns(fn *Function) bool {
 			}
 		}
 		changed = true
+	}
+	return changed
+}
+
+// forwardLocalLoads: `*a = v; x = *a` in one block with nothing in between that could write a (no call, no store, no
+// rundefers): x is v. Removes the spill/reload that a captured named result puts between a merged value and its test.
+func forwardLocalLoads(fn *Function) bool {
+	changed := false
+	var rands []*Value
+	for _, b := range fn.Blocks {
+		last := map[*Alloc]Value{}
+		repl := map[Value]Value{}
+		for _, ins := range b.Instrs {
+			switch x := ins.(type) {
+			case *Store:
+				if a, ok := x.Addr.(*Alloc); ok {
+					last[a] = x.Val
+				} else {
+					last = map[*Alloc]Value{}
+				}
+			case *UnOp:
+				if a, ok := x.X.(*Alloc); ok && x.Op.String() == "*" {
+					if v, ok := last[a]; ok {
+						repl[x] = v
+					}
+				}
+			case *Call, *Defer, *Go, *RunDefers, *MapUpdate, *Send, *Select, *Panic:
+				last = map[*Alloc]Value{}
+			}
+		}
+		if len(repl) == 0 {
+			continue
+		}
+		changed = true
+		resolve := func(v Value) Value {
+			for i := 0; i < 8; i++ {
+				m, ok := repl[v]
+				if !ok {
+					break
+				}
+				v = m
+			}
+			return v
+		}
+		for _, ob := range fn.Blocks {
+			k := 0
+			for _, ins := range ob.Instrs {
+				if v, ok := ins.(Value); ok {
+					if _, dead := repl[v]; dead {
+						continue
+					}
+				}
+				rands = ins.Operands(rands[:0])
+				for _, r := range rands {
+					if *r != nil {
+						if _, ok := repl[*r]; ok {
+							*r = resolve(*r)
+						}
+					}
+				}
+				ob.Instrs[k] = ins
+				k++
+			}
+			ob.Instrs = ob.Instrs[:k]
+		}
 	}
 	return changed
 }
